@@ -538,11 +538,9 @@ class Acc:
         self.fail_counts[check] = self.fail_counts.get(check, 0) + 1
         lst = self.fails.setdefault(check, [])
         size = (len(inp["rules"]), len(inp["path"]))
-        if len(lst) < PER_CHECK or size < lst[-1][0]:
+        if len(lst) < PER_CHECK or size <= lst[-1][0]:
             # one representative per (rule set, path): other insertion orders / configs are only counted
             sig = (tuple(sorted(rule_string(sp) + str(sp.get("methods")) for sp in inp["rules"])), inp["path"])
-            if any(t[4] == sig for t in lst):
-                return
             lst.append((size, inp, obs, exp, sig))
             _trim(lst)
 
@@ -556,15 +554,19 @@ class Acc:
             self.outcomes[k] = self.outcomes.get(k, 0) + v
         for k, lst in o.fails.items():
             cur = self.fails.setdefault(k, [])
-            for t in lst:
-                if not any(t[4] == c[4] for c in cur):
-                    cur.append(t)
+            cur.extend(lst)
             _trim(cur)
 
 
 def _trim(lst):
+    """smallest PER_CHECK inputs, one per (rule set, path); independent of the order in which workers report"""
     lst.sort(key=lambda t: (t[0], repr(t[1])))
-    del lst[PER_CHECK:]
+    seen, keep = set(), []
+    for t in lst:
+        if t[4] not in seen:
+            seen.add(t[4])
+            keep.append(t)
+    lst[:] = keep[:PER_CHECK]
 
 
 def _exp_str(exp):
@@ -687,6 +689,37 @@ DOMAIN_THOROUGH = DOMAIN_QUICK + (
     "maps with up to 3 segments per rule (4 orders each)")
 
 
+EXPLAINED = {"405.slashless_branch.strict", "405.slashless_branch.nonstrict", "merge.run_of_3plus",
+             "match.nonstrict_branch_extra_slash", "match.path_value_with_newline", "match.shadowed_by_rejecting_converter"}
+
+
+def explained(check):
+    """True for the failure classes described in FINDINGS_C03.md (present on the unchanged tree)"""
+    return all(part in EXPLAINED for part in check.split("+"))
+
+
+def select_failures(fails, is_explained, cap=25):
+    """at most `cap` failures: classes that are NOT among the documented ones first (up to 6 each), then at least one
+    and up to three of every documented class"""
+    new = sorted(c for c in fails if not is_explained(c))
+    old = sorted(c for c in fails if is_explained(c))
+    out = []
+    for check in new:
+        for t in fails[check][:6]:
+            out.append((check, t))
+    out = out[:max(0, cap - len(old))] if len(out) + len(old) > cap else out
+    for k in range(3):
+        for check in old:
+            if len(out) < cap and k < len(fails[check]):
+                out.append((check, fails[check][k]))
+    res = []
+    for check, t in out:
+        size, inp, obs, exp = t[:4]
+        res.append({"check": check, "input": common._j(inp), "observed": str(obs)[:500],
+                    "expected": ("one of " + "; ".join(exp))[:300]})
+    return res
+
+
 def run(tier, seed, reg=None):
     common.assert_tree()
     t0 = time.time()
@@ -723,12 +756,7 @@ def run(tier, seed, reg=None):
     with ctx.Pool(procs) as pool:
         for a in pool.imap_unordered(_work, tasks, chunksize=1):
             acc.merge(a)
-    failures = []
-    order = sorted(acc.fails, key=lambda c: (c != "match.outcome", c))
-    for check in order:
-        for size, inp, obs, exp, _sig in acc.fails[check][:4 if len(order) > 4 else PER_CHECK]:
-            failures.append({"check": check, "input": common._j(inp), "observed": str(obs)[:500],
-                             "expected": ("one of " + "; ".join(exp))[:300]})
+    failures = select_failures(acc.fails, explained)
     samples = []
     sp = get_pool("S")[0]
     for idxs, p in (((0, 2), "/a"), ((1, 4, 9), "/12"), ((12, 15, 17), "/a/1")):
